@@ -42,7 +42,8 @@ CHECKS = {
                   'AST scans for the renderers'),
     'C01': dict(
         category='proof',
-        text="count() of wigm (fixed and rational instances), wigm-prf(-batch), scotland and mpls verified against a counter-level "
+        text="count() of wigm (fixed and rational instances), wigm-prf(-batch), scotland, mpls, and meek/warren (fixed-point and guarded "
+             "instances, incl. the iteration loop: the total surplus strictly decreases, so each iteration ends) verified against a counter-level "
              "contract: the main loop's variant 2*nH+nP decreases (termination), enough candidates remain (W2) is an inductive "
              "invariant, on return nobody is hopeful or pending, the seats are filled and the withdrawn count is untouched; every "
              "call of elect/defeat/unpend meets the writer's precondition. The other rules and the upper bound 'not more than the "
@@ -51,7 +52,9 @@ CHECKS = {
         note=COMMON_NOTE + "Assumed: the election model of candidates.py selectors (Candidates.select/hopeful/... as abstract "
              "lists with ghost cardinalities nH,nE,nD,nW,nP updated at every status write: card-update lemma), the C15 post-parse "
              "invariant of rankings, trusted contracts of batchDefeat (wigm-prf) and findCertainLosers (mpls) (bounded stand-in). The select model is itself checked against the real body (8 POST obligations). "
-             "cfer, meek, warren, meek-prf, qpq count() bodies: bounded only (labelled). nE <= seats and (for mpls) 'the seats are filled': bounded only.",
+             "cfer, meek-prf, qpq count() bodies: bounded only (labelled). Meek/Warren: distributeVotes and batchDefeat are trusted contracts "
+             "(frame + 'an elected candidate keeps a positive tally'), termination of iterate() under exact rational arithmetic is not decided, "
+             "and arithmetic=integer is outside the rule's domain (its own assertion rejects it). nE <= seats: bounded only.",
         technique='contract-based deductive verification of the real count() bodies (loop invariants declared + Houdini-inferred, '
                   'variants, call-site preconditions), z3; bounded run-time monitors as labelled stand-in'),
     'C02': dict(
@@ -104,10 +107,10 @@ CHECKS = {
     'C09': dict(
         category='proof',
         text="Candidate.elect/defeat/unpend/unelect verified (state change + logged action + ghost counters); every call site in "
-             "wigm, wigm-prf, scotland, mpls count() satisfies the writer's precondition (hopeful -> elected/defeated, elected&pending "
+             "wigm, wigm-prf, scotland, mpls, meek/warren count() satisfies the writer's precondition (hopeful -> elected/defeated, elected&pending "
              "for unpend); .state/.pending/E.round have single writers (SCAN); newRound only increments; W2 invariant as in C01.",
         design_ref='DESIGN 6/C09, 11.11',
-        note=COMMON_NOTE + "Call sites in cfer, mpls, meek, meek-prf, qpq and 'elected never exceed seats': bounded monitor only.",
+        note=COMMON_NOTE + "Call sites in cfer, meek-prf, qpq and 'elected never exceed seats': bounded monitor only.",
         technique='contract-based deductive verification (status-writer contracts, call-site preconditions in count()), AST '
                   'single-writer scans; bounded transition monitor as stand-in'),
     'C03': dict(
